@@ -14,7 +14,13 @@ fn do_case(case: Vec<i128>) {
         dispatch_len!(
             n,
             [U0, U1, U2, U3, U4, U5, U6, U16, U33, U97],
-            |N| if elem == 0 { forms::run::<Tr, N>(&case) } else { forms::run::<u32, N>(&case) },
+            |N| match elem {
+                0 => forms::run::<Tr, Tr, Tr, N>(&case),
+                1 => forms::run::<u32, u32, u32, N>(&case),
+                2 => forms::run::<Tr, u32, Tr, N>(&case),
+                3 => forms::run::<u32, Tr, Tr, N>(&case),
+                _ => forms::run::<forms::Cn, forms::Cn, forms::Cn, N>(&case),
+            },
             panic!("length {} not monomorphised", n)
         )
     });
@@ -41,15 +47,15 @@ fn main() {
     }
     let ns: Vec<usize> = vec![0, 1, 2, 3, 4, 5, 6, 16, 33, 97];
     for &n in &ns {
-        for elem in [0i128, 1] {
+        for elem in [0i128, 1, 2, 3, 4] {
             for (op, nforms) in [(0i128, 4i128), (1, 10), (2, 4), (3, 4), (4, 1), (5, 1)] {
-                if elem == 1 && op >= 4 {
+                if (elem == 1 && op >= 4) || ((elem == 2 || elem == 3) && op != 1) || (elem == 4 && op != 4) {
                     continue;
                 }
                 for form in 0..nforms {
                     dist(&format!("op{}", op));
                     dist(&format!("elem{}", elem));
-                    do_case(vec![op, form, elem, n as i128, -1, 0, 0]);
+                    do_case(vec![op, form, elem, n as i128, -1, 0, 0, 0]);
                 }
             }
         }
